@@ -1233,6 +1233,22 @@ def oracle_list_faults(ctx) -> None:
         if sorted(lb.list_files("data")) != sorted(names):
             ctx.violation("backends-differ:ListDir:local-reference", f"local listing of data/ is {sorted(lb.list_files('data'))}", {"kind": "other"})
         shutil.rmtree(root, ignore_errors=True)
+    # a LARGE directory (more keys than the service's real page size of 1000, and than any "round" client-side cap),
+    # fault-free: the listing must return every key exactly once
+    from harness.lib.fakes3 import FakeS3, make_s3_backend
+    for big, psize in ((2503, 1000), (1201, 7)):
+        s3b = FakeS3(page_size=psize)
+        beb = make_s3_backend(s3b, prefix="wh/t")
+        want = sorted(f"data/f{i:05d}.parquet" for i in range(big))
+        for k in want:
+            beb.write_file(k, b"v")
+        got = sorted(beb.list_files("data"))
+        ctx.count(1, ("big-listing", big, psize))
+        if got != want:
+            ctx.violation("backends-differ:ListDir:large-directory",
+                          f"listing of a directory of {big} keys (service page size {psize}) returned {len(got)} keys "
+                          f"({len(set(want) - set(got))} missing, {len(got) - len(set(got))} duplicated)",
+                          {"kind": "big-listing", "nkeys": big, "page_size": psize})
     cases = gen_list_fault_cases(ctx)
     seen = set()
     nbad = 0
